@@ -50,10 +50,9 @@ class Flow(object):
         return st
 
     def edge(self, st, blk, idx):
-        br = self.cfg.branch(blk.id)
-        if br is None:
+        if self.cfg.branch(blk.id) is None:
             return st
-        facts = cond_facts(self.f, br[0], idx == 0)
+        facts = self.cfg.edge_facts(self.f, blk.id, idx)
         for kind, key in facts:
             if kind == "nn" and (("pend", key) in st or key.endswith("get_corpus_node()")):
                 st = st | frozenset(["OK"])
